@@ -34,6 +34,14 @@ Emits(a, b) ==
          /\ (b = 0 => EmitCase("ff.identity", P, [n |-> a]) /\ EmitCase("ff.initial", P, [a |-> a]) /\ EmitCase("ff.terminal", P, [a |-> a]))
     [] kind = "raw" -> EmitCase("ff.new", <<"C06", "C05">>, [table |-> a, target |-> b])
     [] kind = "univ" -> /\ EmitCase("ff.universal_labels", P, [q |-> a, h |-> b])
+                        \* semifinite functions and the category of finite / semifinite arrows
+                        /\ EmitCase("sf.coproduct", P, [a |-> a.table, b |-> b]) /\ EmitCase("sf.add", P, [a |-> b, b |-> a.table])
+                        /\ EmitCase("sf.len", P, [a |-> b])
+                        /\ LET fin == [kind |-> "finite", f |-> a]  sem == [kind |-> "semifinite", labels |-> b]  idt == [kind |-> "identity"] IN
+                           /\ \A x \in {fin, sem, idt}, y \in {fin, sem, idt} : EmitCase("sfa.compose", P, [f |-> x, g |-> y])
+                           /\ \A x \in {fin, sem, idt} : EmitCase("sfa.source", P, [f |-> x]) /\ EmitCase("sfa.target", P, [f |-> x])
+                        /\ (b = <<>> => /\ EmitCase("sfa.identity", P, [obj |-> [kind |-> "finite", n |-> Src(a)]]) /\ EmitCase("sfa.identity", P, [obj |-> [kind |-> "set"]])
+                                        /\ EmitCase("sf.singleton", P, [x |-> Src(a)]) /\ EmitCase("sf.zero", P, [u |-> 0]))
                         /\ EmitCase("ff.compose_semifinite", P, [f |-> a, labels |-> b])
 Init == stage = 0 /\ kind = "none" /\ r = <<>>
 Start == stage = 0 /\ kind' \in Kinds /\ r' = r /\ stage' = 1
